@@ -1,7 +1,96 @@
 import TLVerif.Codec.Ops.Common
-/-! registry / random / accessor / result ops. -/
+import TLVerif.Codec.Zero
+import TLVerif.Codec.Registry
+/-! registry / reuse / reset / zero-value ops. The model's readers are functions of the input only, so a
+sequence of decodes into one object (`codec.seq`) is, by construction, the sequence of independent decodes:
+that *is* the statement of C09, and the tie checks the generated code against it. -/
 namespace TLVerif.Codec
+open TLVerif.Util TLVerif.Prim
 
-def handleMisc : OpHandler := fun _ _ _ => none
+def w1both (d : Desc) (fuel ty : Nat) (v : Val) : String :=
+  let w1 := if isUnion d ty then "n/a" else outBytes (writeTL1 d fuel ty true [] v)
+  let w1b := if hasBoxed d ty then outBytes (writeTL1 d fuel ty false [] v) else "n/a"
+  s!"w1={w1} w1b={w1b}"
+
+def decodeStep (sc : Schema) (ty : Nat) (bare : Bool) (h : String) : String :=
+  match bytesOfHex h with
+  | none => "bad-op"
+  | some bs =>
+    let fuel := fuelFor sc.desc bs.length
+    match readTL1 sc.cfg sc.desc fuel ty bare [] bs with
+    | .error e => errStr e
+    | .ok (v, rest) => s!"ok {bs.length - rest.length} {w1both sc.desc fuel ty v}"
+
+def insertSorted (x : String) : List String → List String
+  | [] => [x]
+  | y :: ys => if x < y then x :: y :: ys else y :: insertSorted x ys
+
+def sortStrings (l : List String) : List String := l.foldr insertSorted []
+
+def boolStr (b : Bool) : String := if b then "true" else "false"
+
+def itemStr (it : RegItem) : String :=
+  s!"{it.name}:{it.tag}:{boolStr it.isFunction}:{boolStr it.hasTL1}:{boolStr it.hasTL2}"
+
+/-- name and tag a freshly created object reports: a union reports its first variant -/
+def objNameTag (d : Desc) (it : RegItem) : String :=
+  match d.get? it.idx with
+  | some (.union u) =>
+    match u.variants with
+    | (vi, _) :: _ =>
+      match d.get? vi, d.names.find? (·.idx == vi) with
+      | some (.struct s), some n => s!"{n.tlname}:{s.tag}"
+      | _, _ => "?"
+    | [] => "?"
+  | _ => s!"{it.name}:{it.tag}"
+
+def firstWord (d : Desc) (it : RegItem) : String :=
+  match zeroVal d (fuelFor d 64) it.idx with
+  | none => "?"
+  | some z =>
+    match writeTL1 d (fuelFor d 64) it.idx false [] z with
+    | .ok (a :: b :: c :: e :: _) => toString (a.toNat + b.toNat * 256 + c.toNat * 65536 + e.toNat * 16777216)
+    | _ => "werr"
+
+def handleMisc : OpHandler := fun st op args =>
+  match op, args with
+  | "items", [sid] =>
+    match st.lookup sid with
+    | some sc =>
+      let r := registry sc.desc
+      if registryOK r then some ("ok " ++ " ".intercalate (sortStrings (r.map itemStr)))
+      else some "registry-not-ok"
+    | none => some "bad-op"
+  | "reg", [sid, name] =>
+    match st.lookup sid with
+    | some sc =>
+      let r := registry sc.desc
+      match byName r name with
+      | none => some "absent"
+      | some it =>
+        let bt := if it.tag == 0 then "-" else match byTag r it.tag with | some x => x.name | none => "absent"
+        some s!"ok item={itemStr it} obj={objNameTag sc.desc it} bytag={bt} first={firstWord sc.desc it}"
+    | none => some "bad-op"
+  | "seq", sid :: ty :: _name :: boxed :: hs =>
+    match st.lookup sid, ty.toNat? with
+    | some sc, some ty => some (" | ".intercalate (hs.map (decodeStep sc ty (boxed != "1"))))
+    | _, _ => some "bad-op"
+  | "reset", [sid, ty, _name, _boxed, _h] =>
+    match st.lookup sid, ty.toNat? with
+    | some sc, some ty =>
+      let fuel := fuelFor sc.desc 64
+      match zeroVal sc.desc fuel ty with
+      | none => some "model-err zero"
+      | some z => some ("ok " ++ w1both sc.desc fuel ty z)
+    | _, _ => some "bad-op"
+  | "z1", [sid, ty, _name] =>
+    match st.lookup sid, ty.toNat? with
+    | some sc, some ty =>
+      let fuel := fuelFor sc.desc 64
+      match zeroVal sc.desc fuel ty with
+      | none => some "model-err zero"
+      | some z => some ("ok " ++ w1both sc.desc fuel ty z)
+    | _, _ => some "bad-op"
+  | _, _ => none
 
 end TLVerif.Codec
